@@ -17,6 +17,9 @@ RULE = ("Stations drawn as (lat, lon, alt) with mass at the poles, the equator a
         "another station's frame; masks drawn as tables, queried on and off their nodes over "
         "[-4 pi, 4 pi].")
 ASSUMPTIONS = [
+    "a quarter of the topocentric / measures cases create their station under a name that another definition "
+    "(other coordinates, the same coordinates, or only another mask) held before - supported by the library, which "
+    "logs 'already registered. Overriding'; everything is checked against the oracle for the current definition",
     "oracle: reduced-latitude ellipsoid point + east/north/up triad in vf/oracles/earth.py "
     "(a, f read from beyond.constants.Earth; self-tested against the prime-vertical-radius form)",
     "for targets given in an inertial frame the Earth-fixed state is taken from the library "
@@ -64,12 +67,17 @@ def _forget(name):
         pass
 
 
-def station(shard, lat, lon, alt, mask=None, mask_as="list"):
+def station(shard, lat, lon, alt, mask=None, mask_as="list", redef=None):
     """create_station under a name never used before in this process; identical requests
-    share the frame; at most MAX_LIVE stations stay registered."""
+    share the frame; at most MAX_LIVE names stay registered.
+
+    redef = dict(prior=[{lat, lon, alt[, mask]}, ...], use=bool): the name is first given to the
+    prior definition(s) - and, with `use`, a conversion is made through each of them - before it
+    is created *again* with (lat, lon, alt, mask).  The library supports that (it logs
+    "already registered. Overriding"); the frame returned by the last call is the one checked."""
     from beyond.frames.stations import create_station
 
-    key = (lat, lon, alt, json.dumps(mask), mask_as)
+    key = (lat, lon, alt, json.dumps(mask), mask_as, json.dumps(redef, sort_keys=True))
     if key in _cache:
         return _cache[key]
     while len(_cache) >= MAX_LIVE:
@@ -81,6 +89,16 @@ def station(shard, lat, lon, alt, mask=None, mask_as="list"):
     if mask is not None and mask_as == "ndarray":
         m = np.array(mask, dtype=float)
     try:
+        if redef:
+            from beyond.dates import Date
+            from beyond.orbits import StateVector
+
+            for p in redef["prior"]:
+                old = create_station(name, (p["lat"], p["lon"], p["alt"]), mask=p.get("mask"))
+                if redef.get("use"):
+                    sv = StateVector([7e6, 1e6, -2e6, 10.0, 20.0, 30.0], Date(50000, 1000.0), "cartesian", "ITRF")
+                    sv.copy(frame=old, form="spherical")
+                    StateVector([1e3, 2e3, 3e3, 0, 0, 0], Date(50000, 1000.0), "cartesian", old).copy(frame="ITRF")
         frame = create_station(name, (lat, lon, alt), mask=m)
     except BaseException:
         _forget(name)
@@ -220,9 +238,31 @@ def target(draw, with_other):
 
 
 @st.composite
+def redefinition(draw, shard, site):
+    """None (3 of 4) or the earlier holder(s) of the station's name: independent coordinates,
+    the very same coordinates, or the same coordinates with only the mask changing."""
+    if draw(st.integers(0, 3)) != 0:
+        return None, None
+    kind = draw(st.sampled_from(["other", "other", "other", "same", "mask"]))
+    mask = None
+    if kind == "other":
+        prior = [draw(geodetic(shard + 3)) for _ in range(draw(st.integers(1, 2)))]
+    elif kind == "same":
+        prior = [dict(site)]
+    else:
+        prior = [dict(site)]
+        if draw(st.booleans()):
+            prior[0]["mask"] = [[1.0, TWO_PI], [0.3, 0.1]]
+        mask = [[draw(go.uniform(0.5, 5.5)), TWO_PI], [draw(go.uniform(0.0, 0.5)), draw(go.uniform(0.0, 0.5))]]
+    return dict(kind=kind, prior=prior, use=draw(st.booleans())), mask
+
+
+@st.composite
 def topo_case(draw, shard, tier):
     other = draw(geodetic(shard)) if draw(st.integers(0, 3)) == 0 else None
-    return dict(shard=shard, site=draw(geodetic(shard)), other=other, date=draw(date(shard)),
+    site = draw(geodetic(shard))
+    redef, mask = draw(redefinition(shard, site))
+    return dict(shard=shard, site=site, other=other, date=draw(date(shard)), redef=redef, mask=mask,
                 targets=draw(st.lists(target(other is not None), min_size=1, max_size=24)))
 
 
@@ -234,7 +274,9 @@ def site_case(draw, shard, tier):
 
 @st.composite
 def measures_case(draw, shard, tier):
-    return dict(shard=shard, site=draw(geodetic(shard)), date=draw(date(shard)),
+    site = draw(geodetic(shard))
+    redef, mask = draw(redefinition(shard, site))
+    return dict(shard=shard, site=site, date=draw(date(shard)), redef=redef, mask=mask,
                 targets=draw(st.lists(target(False), min_size=1, max_size=8)),
                 legs=draw(st.integers(1, 4)))
 
@@ -478,15 +520,35 @@ def check_site(case):
 # ----------------------------------------------------------------- facet: topocentric
 
 
+def redefined_station(case):
+    """The station of the case; when the case says so its name was held by another definition before."""
+    g = case["site"]
+    fr = station(case["shard"], g["lat"], g["lon"], g["alt"], mask=case.get("mask"), redef=case.get("redef"))
+    cls = []
+    if case.get("redef"):
+        cls.append("redefined:" + case["redef"]["kind"] + ("+used" if case["redef"].get("use") else ""))
+        lla = fr.latlonalt
+        want = (math.radians(g["lat"]), math.radians(g["lon"]), g["alt"])
+        if any(abs(float(lla[k]) - want[k]) > 1e-14 * max(1.0, abs(want[k])) for k in range(3)):
+            raise Violation("latlonalt", f"redefined station: latlonalt = {list(map(float, lla))}, created with {want}")
+    if case.get("mask"):
+        azs, els = case["mask"]
+        for q in (0.25, azs[0] / 2, (azs[0] + TWO_PI) / 2, -1.0):
+            got, want = float(fr.get_mask(q)), oe.mask_value(azs, els, q)
+            if not abs(got - want) <= 1e-12:
+                raise Violation("mask-value", f"redefined station: get_mask({q!r}) = {got!r}, its own table gives {want!r}")
+    return fr, cls
+
+
 def check_topocentric(case):
     g = case["site"]
-    fr = station(case["shard"], g["lat"], g["lon"], g["alt"])
+    fr, redef_cls = redefined_station(case)
     other = case.get("other")
     other_fr = station(case["shard"], other["lat"], other["lon"], other["alt"]) if other else None
     dt = mkdate(case["date"])
     site, triad = site_of(g["lat"], g["lon"], g["alt"])
     worst = 0.0
-    cls = site_classes(g) + date_classes(case["date"]) + [f"eop:{eop_name()}"]
+    cls = site_classes(g) + date_classes(case["date"]) + [f"eop:{eop_name()}"] + redef_cls
     if other:
         cls.append("two-stations")
     nt = False
@@ -515,13 +577,13 @@ def check_measures(case):
     from beyond.utils.measures import Azimut, Doppler, Elevation, Range
 
     g = case["site"]
-    fr = station(case["shard"], g["lat"], g["lon"], g["alt"])
+    fr, redef_cls = redefined_station(case)
     dt = mkdate(case["date"])
     site, triad = site_of(g["lat"], g["lon"], g["alt"])
     legs = case["legs"]
     path = [fr] + ["SAT" if j % 2 == 0 else fr for j in range(legs)]
     worst = 0.0
-    cls = [f"legs:{legs}"]
+    cls = [f"legs:{legs}"] + redef_cls
     for k, t in enumerate(case["targets"]):
         sv, p, v, labels = build_target(t, dt, site, triad, case["shard"], None, None)
         sph = np.asarray(sv.copy(frame=fr, form="spherical").base, float)
@@ -629,9 +691,9 @@ FACETS = [
           rule="|lat| > 1 deg", quick=(16, 30), thorough=(192, 30)),
     Facet("topocentric", topo_case, check_topocentric, setup=setup_eop,
           rule="|lat| > 1 deg and at least one target more than 0.1 deg from the vertical",
-          quick=(32, 22), thorough=(480, 22)),
+          quick=(36, 18), thorough=(560, 18)),
     Facet("measures", measures_case, check_measures, setup=setup_eop,
-          rule="every case (4 measure types x targets)", quick=(8, 30), thorough=(96, 30)),
+          rule="every case (4 measure types x targets)", quick=(10, 22), thorough=(128, 22)),
     Facet("mask", mask_case, check_mask,
           rule="at least one query azimuth that is not a table node", quick=(8, 36), thorough=(96, 36)),
 ]
